@@ -3,5 +3,6 @@ pub mod conv;
 pub mod gen_syntax;
 pub mod model;
 pub mod props;
+pub mod refparse;
 pub mod render;
 pub mod runner;
